@@ -132,7 +132,7 @@ func poolDir() string {
 	if base == "" {
 		base = os.TempDir()
 	}
-	d := filepath.Join(base, fmt.Sprintf("pool-%d", os.Getpid()))
+	d := filepath.Join(base, fmt.Sprintf("pool-%08d", os.Getpid()%100000000))
 	os.MkdirAll(d, 0o755)
 	return d
 }
